@@ -172,6 +172,18 @@ func ProcessDeposit(spec *common.Spec, epc *common.EpochsContext, state common.B
 		} else {
 			epc.ValidatorPubkeyCache = pc
 		}
+		// Keep the cached effective balances aligned with the registry: the context computed from scratch
+		// for this state has an entry for the new validator. Copy instead of append: contexts are cloned shallowly.
+		if uint64(len(epc.EffectiveBalances)) == valCount {
+			effBalance := balance - (balance % spec.EFFECTIVE_BALANCE_INCREMENT)
+			if effBalance > spec.MAX_EFFECTIVE_BALANCE {
+				effBalance = spec.MAX_EFFECTIVE_BALANCE
+			}
+			extended := make([]common.Gwei, valCount+1)
+			copy(extended, epc.EffectiveBalances)
+			extended[valCount] = effBalance
+			epc.EffectiveBalances = extended
+		}
 	} else {
 		// Increase balance by deposit amount
 		bals, err := state.Balances()
